@@ -510,6 +510,59 @@ def wide_unit(p, item, tier, seed):
                             REPLAY_PRELUDE + "from checks import c12\nfrom vlib.report import Partial\n" + f"p=Partial()\nc12.wide_unit(p, {spec!r}, 'quick', 0)\nprint([v['what'][:200] for v in p.violations])\nsys.exit(1 if p.violations else 0)\n")
                 return
 
+
+# ---------------------------------------------------------------- queries interleaved with edits
+def history_unit(p, item, tier, seed):
+    """A Circuit is queried, edited through the public API, and queried again: every answer must be the definition
+    for the function the circuit computes *now* (nothing remembered from before the edit)."""
+    from checks import mutators
+
+    rnd = random.Random(item)
+    for i in range(30 if tier == "quick" else 100):
+        c0 = circgen.random_circuit(rnd, rnd.randint(1, 3), rnd.randint(1, 5), max_arity=2, n_outputs=rnd.randint(1, 2))
+        c = mutators.rebuild(c0)
+        calls = []
+        src_calls = []
+        bad = None
+        for step in range(3):
+            n, m = len(c.inputs), len(c.outputs)
+            if not (1 <= n <= 3 and 1 <= m <= 2):
+                break
+            T = [[z3.BoolVal(v) for v in r] for r in ref_table(c)]
+            for qname, call, spec in queries(n, m):
+                try:
+                    res = call(c)
+                    wrong = z3.is_true(z3.simplify(wrong_term(T, n, spec, res)))
+                    what = f"answered {res}"
+                except Exception as e:  # noqa: BLE001
+                    wrong, what = True, f"raised {type(e).__name__}: {e}"
+                if wrong:
+                    bad = (qname, what)
+                    break
+            p.case(("c12h", item, i, step))
+            p.queries["sat" if bad else "unsat"] += 1
+            if bad:
+                break
+            mc = mutators.random_call(rnd, c, step=step, kinds=["order_inputs", "order_outputs", "set_inputs", "set_outputs", "rename_gate", "mark_as_output", "reinsert", "add_gate", "replace_inputs"])
+            if mc is None:
+                continue
+            try:
+                c = mutators.apply_call(c, mc)
+                calls.append(mc)
+            except Exception:  # noqa: BLE001
+                break
+        if bad:
+            p.violation(f"function:Circuit:{bad[0].split('(')[0].split('[')[0]}:after-edits", f"after {calls} on {circ.describe(c0)}: {bad[0]} {bad[1]}, which is not the definition for the circuit as it is now",
+                        REPLAY_PRELUDE + circ.circ_src(c0) + "\nfrom checks import c12, mutators\nimport z3\n" + f"calls={calls!r}\nbad=None\n"
+                        "for k in range(len(calls)+1):\n"
+                        "    n, m = len(c.inputs), len(c.outputs)\n    T=[[z3.BoolVal(v) for v in r] for r in c12.ref_table(c)]\n"
+                        "    for qn, call, spec in c12.queries(n, m):\n"
+                        "        try:\n            w=z3.is_true(z3.simplify(c12.wrong_term(T, n, spec, call(c))))\n        except Exception as e:\n            w=True\n"
+                        "        if w: bad=(k, qn); break\n"
+                        "    if bad or k==len(calls): break\n    c=mutators.apply_call(c, calls[k])\n"
+                        "print(bad); sys.exit(1 if bad else 0)\n")
+            return
+
 # ---------------------------------------------------------------- model completion
 def completion_unit(p, item, tier, seed):
     n, m, mask = item  # mask: tuple of (k,j) don't-care positions
@@ -733,6 +786,8 @@ def run(rep, tier, seed, only=None):
                 k = 1 if (n, m) in ((1, 1), (2, 1), (1, 2)) else (6 if (n, m) != (3, 2) else 16)
                 items += [(n, m, rname, (i, k)) for i in range(k)]
         rep.pmap(shape_unit, items)
+    if sub("history"):
+        rep.pmap(history_unit, [seed * 97 + k for k in range(16 if thorough else 8)])
     if sub("wide"):
         specs = [(9, (1, 8), "xor"), (9, (8, 1), "xor"), (11, (1, 2, 8, 10), "xor"), (10, (0, 9), "and"), (9, (2, 3, 8), "maj"), (11, (10, 3, 9, 1), "and"), (12, (11, 4), "xor")]
         if thorough:
